@@ -348,7 +348,7 @@ pub fn explore(w: &World, r: usize, cfg: &L1Cfg, check_edge: &(dyn Fn(&Edge) -> 
         let deadline = cfg.deadline;
         let rss_limit = std::env::var("VERIF_RSS_LIMIT_GB").ok().and_then(|s| s.parse().ok()).unwrap_or(24usize) << 30;
         let exps: Vec<Option<Exp>> = par_map(frontier.len(), |fi| {
-            if std::time::Instant::now() > deadline || (fi % 64 == 0 && crate::core::rss_bytes() > rss_limit + (rss_limit >> 2)) {
+            if std::time::Instant::now() > deadline || crate::core::rss_bytes() > rss_limit + (rss_limit >> 3) {
                 return None;
             }
             let node = &frontier[fi];
@@ -383,7 +383,11 @@ pub fn explore(w: &World, r: usize, cfg: &L1Cfg, check_edge: &(dyn Fn(&Edge) -> 
                     e.viol.push((k, v, path.clone()));
                 }
                 let key = (key_of_local(w, &out.local), fx_hash(&log));
-                e.succ.push((Node { local: out.local, log, depth: node.depth + 1, path }, key));
+                // states already known are not kept (most refused inputs lead back to the same state);
+                // `seen` is only read while a level is being expanded
+                if !seen.contains(&key) {
+                    e.succ.push((Node { local: out.local, log, depth: node.depth + 1, path }, key));
+                }
             };
             for (desc, input) in &alpha {
                 let pol = Policy { crash: None, sync: sync_pool.clone() };
